@@ -368,6 +368,10 @@ func Encode(w *wl.Workload, l Layout) ([]byte, int, error) {
 			unkSummary[u.Pos] = append(unkSummary[u.Pos], u)
 		}
 	}
+	// summary records must be grouped by opcode: unknown records sharing a position are emitted op by op
+	for _, list := range unkSummary {
+		sort.SliceStable(list, func(i, j int) bool { return list[i].Op < list[j].Op })
+	}
 	unit := 0
 	beforeUnit := func() {
 		for _, u := range unkData[unit] {
